@@ -431,6 +431,15 @@ pub fn run(args: &[String]) -> i32 {
         }
         miri_summary = summary;
     }
+    let mut strace_summary = Value::Null;
+    if tier == Tier::Thorough && replay.is_none() && prop == "C13" {
+        let (summary, failures) = strace_tier(&exe, seed);
+        for f in failures {
+            merged.cur_idx = f.get("case_index").and_then(|i| i.as_i64()).unwrap_or(-1);
+            merged.disagreement(&known, "syscall-trace-shows-a-discarded-directory-read-or-a-kept-directory-not-read", None, f);
+        }
+        strace_summary = summary;
+    }
     let wall = started.elapsed().as_secs_f64();
     // Verdict.
     let nviol: u64 = merged.violations.values().map(|v| v.0).sum();
@@ -489,6 +498,9 @@ pub fn run(args: &[String]) -> i32 {
     coverage.insert("coverage_floors_missed".into(), json!(missing_floors));
     coverage.insert("unprivileged_workers".into(), json!(unprivileged || !is_root));
     coverage.insert("repo_fingerprint".into(), json!(repo_fingerprint()));
+    if !strace_summary.is_null() {
+        coverage.insert("syscall_trace_tier".into(), strace_summary);
+    }
     if !miri_summary.is_null() {
         coverage.insert("miri_tier".into(), miri_summary);
     }
@@ -683,6 +695,197 @@ fn miri_tier(root: &str, seed: u64) -> (Value, Vec<Value>) {
     }
     (
         json!({"ran": true, "tool": "cargo +nightly miri run (interpreter; detects undefined behaviour, invalid borrows, leaks)", "shards": ran, "globs_exercised": globs, "failing_expressions_exercised": errs, "operations": operations, "failing_shards": failures.len(), "samples": samples, "wall_s": started.elapsed().as_secs_f64()}),
+        failures,
+    )
+}
+
+fn unescape_strace(s: &str) -> String {
+    let b = s.as_bytes();
+    let mut out: Vec<u8> = Vec::with_capacity(b.len());
+    let mut i = 0;
+    while i < b.len() {
+        if b[i] == b'\\' && i + 1 < b.len() {
+            let c = b[i + 1];
+            match c {
+                b'n' => { out.push(b'\n'); i += 2; },
+                b't' => { out.push(b'\t'); i += 2; },
+                b'r' => { out.push(b'\r'); i += 2; },
+                b'v' => { out.push(0x0b); i += 2; },
+                b'f' => { out.push(0x0c); i += 2; },
+                b'\\' => { out.push(b'\\'); i += 2; },
+                b'"' => { out.push(b'"'); i += 2; },
+                b'x' if i + 3 < b.len() => {
+                    let h = std::str::from_utf8(&b[i + 2..i + 4]).ok().and_then(|h| u8::from_str_radix(h, 16).ok());
+                    match h { Some(v) => { out.push(v); i += 4; }, None => { out.push(b[i]); i += 1; } }
+                },
+                b'0'..=b'7' => {
+                    let mut j = i + 1;
+                    let mut v: u32 = 0;
+                    while j < b.len() && j < i + 4 && (b'0'..=b'7').contains(&b[j]) {
+                        v = v * 8 + u32::from(b[j] - b'0');
+                        j += 1;
+                    }
+                    out.push(v as u8);
+                    i = j;
+                },
+                _ => { out.push(b[i]); i += 1; },
+            }
+        }
+        else {
+            out.push(b[i]);
+            i += 1;
+        }
+    }
+    String::from_utf8_lossy(&out).to_string()
+}
+
+fn normal(p: &str) -> String {
+    let pb: std::path::PathBuf = std::path::Path::new(p).components().collect();
+    pb.to_string_lossy().to_string()
+}
+
+/// Independent syscall-level monitor for C13: one worker runs the first cases of the workload under
+/// `strace`; every walk is bracketed by marker `access()` calls; no `getdents64` may be issued on a
+/// directory the model says is discarded as a tree, and every other descended directory must be
+/// read.
+fn strace_tier(exe: &std::path::Path, seed: u64) -> (Value, Vec<Value>) {
+    let cases = std::env::var("WAXMON_STRACE_CASES").ok().and_then(|s| s.parse().ok()).unwrap_or(400usize);
+    let scratch = std::env::temp_dir().join(format!("waxmon-strace-{}", std::process::id()));
+    let _ = fs::remove_dir_all(&scratch);
+    if fs::create_dir_all(&scratch).is_err() {
+        return (json!({"ran": false, "reason": "cannot create scratch directory"}), Vec::new());
+    }
+    let scratch_s = scratch.to_string_lossy().to_string();
+    let trace = format!("{}/trace.txt", scratch_s);
+    let out = format!("{}/shard0.json", scratch_s);
+    let status = Command::new("strace")
+        .args(["-f", "-qq", "-s", "4096", "-e", "trace=openat,getdents64,access", "-o", &trace])
+        .arg(exe)
+        .args(["worker", "C13", "quick"])
+        .arg(seed.to_string())
+        .args(["0", "1", &out, &scratch_s, "0", "", &cases.to_string()])
+        .env("WAXMON_SYSCALL_MARKERS", "1")
+        .current_dir(&scratch)
+        .stdin(Stdio::null())
+        .stdout(Stdio::null())
+        .stderr(Stdio::null())
+        .status();
+    match status {
+        Ok(st) if st.success() => {},
+        Ok(st) => {
+            let _ = fs::remove_dir_all(&scratch);
+            return (json!({"ran": false, "reason": format!("traced worker exited with {:?}", st.code())}), Vec::new());
+        },
+        Err(e) => {
+            let _ = fs::remove_dir_all(&scratch);
+            return (json!({"ran": false, "reason": format!("cannot start strace: {}", e)}), Vec::new());
+        },
+    }
+    // Expectations by (pid, seq).
+    let mut expect: BTreeMap<(u64, u64), Value> = BTreeMap::new();
+    if let Ok(text) = fs::read_to_string(format!("{}/syscall-expectations.jsonl", scratch_s)) {
+        for l in text.lines() {
+            if let Ok(v) = serde_json::from_str::<Value>(l) {
+                let k = (v["pid"].as_u64().unwrap_or(0), v["seq"].as_u64().unwrap_or(0));
+                expect.insert(k, v);
+            }
+        }
+    }
+    let text = fs::read_to_string(&trace).unwrap_or_default();
+    let mut failures = Vec::new();
+    let mut walks = 0usize;
+    let mut dir_reads = 0usize;
+    let mut discarded_checked = 0usize;
+    let mut syscalls = 0usize;
+    // Per traced pid: current bracket, fd table, directories read.
+    let mut cur: BTreeMap<u64, (u64, BTreeMap<i64, String>, std::collections::BTreeSet<String>)> = BTreeMap::new();
+    for line in text.lines() {
+        let (pid_s, rest) = match line.split_once(' ') {
+            Some(x) => x,
+            None => continue,
+        };
+        let pid: u64 = match pid_s.trim().parse() {
+            Ok(p) => p,
+            Err(_) => continue,
+        };
+        let rest = rest.trim_start();
+        syscalls += 1;
+        if let Some(a) = rest.strip_prefix("access(\"") {
+            if let Some(end) = a.find("\", ") {
+                let path = unescape_strace(&a[..end]);
+                if let Some(m) = path.strip_prefix("/waxmon-marker/") {
+                    let parts: Vec<&str> = m.split('/').collect();
+                    if parts.len() == 3 {
+                        let seq: u64 = parts[2].parse().unwrap_or(0);
+                        let wpid: u64 = parts[1].parse().unwrap_or(0);
+                        if parts[0] == "begin" {
+                            cur.insert(pid, (seq, BTreeMap::new(), Default::default()));
+                        }
+                        else if let Some((s, _, read)) = cur.remove(&pid) {
+                            if s == seq {
+                                if let Some(e) = expect.get(&(wpid, seq)) {
+                                    walks += 1;
+                                    let read_n: std::collections::BTreeSet<String> = read.iter().map(|p| normal(p)).collect();
+                                    let mut bad_read = Vec::new();
+                                    for d in e["discarded"].as_array().cloned().unwrap_or_default() {
+                                        discarded_checked += 1;
+                                        if let Some(d) = d.as_str() {
+                                            if read_n.contains(&normal(d)) {
+                                                bad_read.push(d.to_string());
+                                            }
+                                        }
+                                    }
+                                    let mut not_read = Vec::new();
+                                    for d in e["read_dirs"].as_array().cloned().unwrap_or_default() {
+                                        if let Some(d) = d.as_str() {
+                                            if !read_n.contains(&normal(d)) {
+                                                not_read.push(d.to_string());
+                                            }
+                                        }
+                                    }
+                                    if (!bad_read.is_empty() || !not_read.is_empty()) && failures.len() < 5 {
+                                        failures.push(json!({"case_index": e["case_index"], "discarded_directories_read(getdents64)": bad_read, "kept_directories_never_read": not_read.iter().take(5).collect::<Vec<_>>()}));
+                                    }
+                                }
+                            }
+                        }
+                    }
+                }
+            }
+            continue;
+        }
+        if let Some((_, fds, read)) = cur.get_mut(&pid).map(|c| (c.0, &mut c.1, &mut c.2)) {
+            if let Some(a) = rest.strip_prefix("openat(") {
+                // openat(AT_FDCWD, "path", flags) = fd
+                if let (Some(q1), true) = (a.find('"'), a.contains("O_DIRECTORY")) {
+                    let after = &a[q1 + 1..];
+                    if let Some(q2) = after.find("\", ") {
+                        let path = unescape_strace(&after[..q2]);
+                        if let Some(eq) = rest.rfind(" = ") {
+                            if let Ok(fd) = rest[eq + 3..].trim().parse::<i64>() {
+                                if fd >= 0 {
+                                    fds.insert(fd, path);
+                                }
+                            }
+                        }
+                    }
+                }
+            }
+            else if let Some(a) = rest.strip_prefix("getdents64(") {
+                if let Some(c) = a.find(',') {
+                    if let Ok(fd) = a[..c].trim().parse::<i64>() {
+                        if let Some(p) = fds.get(&fd) {
+                            read.insert(p.clone());
+                            dir_reads += 1;
+                        }
+                    }
+                }
+            }
+        }
+    }
+    let _ = fs::remove_dir_all(&scratch);
+    (
+        json!({"ran": true, "tool": "strace -f -e trace=openat,getdents64,access", "cases_traced": cases, "walks_checked": walks, "syscalls_parsed": syscalls, "getdents64_on_directories": dir_reads, "discarded_directories_checked": discarded_checked, "failing_walks": failures.len()}),
         failures,
     )
 }
